@@ -76,6 +76,8 @@ class SetMutator(CollectionAttrMutator):
         )
 
     def remove_item(self, item):  # pylint: disable=arguments-renamed,arguments-differ
+        if self.collection is MISSING:
+            self.collection = self._create_collection()
         key, _ = self._extractor(item, raise_if_missing=True)
         self.collection.remove(key)
         return self
